@@ -158,13 +158,23 @@ impl SubSocket {
         let message: ZmqMessage = SubSocketBackend::create_subs_message(subscription, msg_type);
         let mut iter = self.backend.peers.begin_async().await;
 
+        // A failure on one peer's connection must not keep the others from being updated:
+        // go over all of them and report the first failure afterwards.
+        let mut first_error = None;
         while let Some(mut peer) = iter {
-            peer.send_queue
+            if let Err(e) = peer
+                .send_queue
                 .send(Message::Message(message.clone()))
-                .await?;
+                .await
+            {
+                first_error.get_or_insert(e);
+            }
             iter = peer.next_async().await;
         }
-        Ok(())
+        match first_error {
+            Some(e) => Err(e.into()),
+            None => Ok(()),
+        }
     }
 }
 
